@@ -724,6 +724,10 @@ TARGETS = [
     # (USE_32BIT_ONLY) is what every build compiles; w8 / w32 are kept in the thorough tier only (callers' view of the
     # context structure differs there). The md_map_* / md_xmd_* functions do not depend on MD_MAP, only the md_map / md_xmd
     # macros do: the md-* builds run the macro-only targets.
+    # coverage-guided campaign with in-target definitional oracles (engine/fuzz/fuzz_md.c): HMAC = RFC 2104 from md_map,
+    # KDF / MGF blocks, XMD from the one-shot hashes, AES round trip, decrypt-arbitrary-bytes then re-encrypt
+    Target("fuzz-md", None, None, {"quick": ["fuzz256"], "thorough": ["fuzz256"]}, quick=60000, thorough=3000000,
+           fuzz="fuzz_md", job_size={"quick": 20000, "thorough": 250000}),
     Target("aes_dec", strat_aes_dec, run_aes_dec, _c(["base256"], GEN), quick=100000, thorough=500000),
     Target("aes_enc", strat_aes_enc, run_aes_enc, _c(["base256"], GEN), quick=70000, thorough=350000),
     Target("xmd", strat_xmd, run_xmd, _c(["base256"], GEN + ["w8"]), quick=80000, thorough=60000),
